@@ -36,7 +36,8 @@ def inputs():
 
 
 CFGS = [("-greedy",), ("-greedy", "-storage"), ("-greedy", "-push0"), ("-greedy", "-size"), ("-greedy", "-partition")]
-MENU = ["DUP1", "DUP2", "DUP3", "SWAP1", "SWAP2", "SWAP3", "POP", "NOSUCHID_0", "ADD_9"]
+MENU = ["DUP1", "DUP2", "DUP3", "SWAP1", "SWAP2", "SWAP3", "POP", "NOSUCHID_0", "ADD_9", "PUSH0_7", "PUSH_9", "DUP1_0",
+        "SWAP1_1", "POP_0", "MSTORE_9", "PUSH0", "PUSH", "NOP"]
 
 
 def single_edits(log):
